@@ -700,6 +700,17 @@ let orc_net args lib impl =
      ("request_shape", shape_ok); ("no_plaintext_connection", canary = 0); ("no_nil_document", no_nil_doc); ("cache_transparent", transparent)]
   with _ -> [("well_formed_result", false)]
 
+(* ---------------- items built from arbitrary JSON (C06, C01, C14): oracles only ---------------- *)
+let op_item _args = []
+let orc_item _args impl =
+  match impl with
+  | st :: _ms :: nt :: rest when st = 0 || st = 1 ->
+    (try
+      let (texts, _) = take_texts nt rest in
+      [("safe", List.for_all safe_b texts); ("neutral", List.for_all neutral_b texts); ("wf_out", List.for_all wf_text_b texts)]
+    with _ -> [("well_formed_result", false)])
+  | _ -> []
+
 (* ---------------- dispatch ---------------- *)
 let handlers : (string, (int list -> int list -> int list) * (int list -> int list -> int list -> (string * bool) list)) Hashtbl.t = Hashtbl.create 64
 (* handlers that use library-oracle answers (the "<id> L ..." line of the implementation run) *)
@@ -727,6 +738,8 @@ let () =
   reg "hook" op_hook (orc_equal op_hook);
   regl "render" op_render orc_render;
   regl "net" op_net orc_net;
+  reg "item" op_item orc_item;
+  reg "rendernm" (fun _ -> []) no_oracle;
   regl "objrender" op_objrender orc_objrender;
   reg "problem" op_problem orc_problem;
   reg "hex" op_hex (orc_equal op_hex);
